@@ -37,7 +37,8 @@ CLAIMED["C14"] = dict(
     text="Decides the formula and totality clauses, not the round trip: R1 matches the derivation against the RFC 6330 4.3 template "
          "(Al/SS choice, T, Kt, N_max, descending KL(n) scan with the <= test, Z = ceil(Kt/KL(N_max)), ascending inclusive N search). "
          "R2/R3: over the property's own domain every narrowing cast, overflow/division assert and panic in the cone is discharged; "
-         "the only reachable refusal fires when KL(N_max) = 0.",
+         "the only reachable refusal fires when KL(N_max) = 0. R5: the builder and with_defaults hand the caller's length, packet size and "
+         "budget to the derivation unchanged (setters store their argument as given).",
     note="Domain assumptions (ceil(F/T) <= 56403*255, derived Z <= 255, budget admits K'=10) are stated in the evidence; "
          "'encoder and decoder round-trip the object' is not decided here.",
     technique="static analysis: term-template matching against RFC formulas + abstract interpretation with entry case split")
@@ -106,7 +107,8 @@ CLAIMED["C08"] = dict(
          "guarded by received_esi.insert(own ESI) == true and classified by that same ESI; the source counter is incremented exactly where a "
          "slot is filled and written nowhere else; per-block results are written only while None (memoisation is monotone) for the packet's own "
          "block number; decode and add_new_packet perform the same guarded update and decode and get_result build the result identically; "
-         "Clone of both decoder types is derived.",
+         "Clone of both decoder types is derived; R6: after the intake loop no per-call variable is read, so the decision to answer depends on "
+         "the accumulated state only.",
     note="Independence of the solver's success from row order is mathematics, not code shape, and is not decided.",
     technique="static analysis: control-dependence / guard rules and sibling-summary comparison over rustc MIR")
 
@@ -143,7 +145,8 @@ CLAIMED["C07"] = dict(
          "(found exactly, by source span, in std and no_std builds) is pure, confined to debug-only state, or one of four reviewed "
          "release/debug twins with identical row operands whose side conditions are checked (start column only reaches add_assign_rows, "
          "the operation is recorded unconditionally, A is dead after the fifth phase in release); planned, cached and direct (no_std) "
-         "encoders use the one sparse-threshold constant; CPU paths are gated and dispatched as in C11.",
+         "encoders use the one sparse-threshold constant; CPU paths are gated and dispatched as in C11; R5: every loop of the sparse back-end "
+         "over its bit-packed dense tail visits exactly ceil(nd/64) words per row, for all 64 residues of nd = 64q + r.",
     note="Does not decide that dense and sparse solves agree (C16) nor that errata 11 is mathematically valid.",
     technique="static analysis: cross-configuration MIR diff by source span with an explicit exception table + dataflow side conditions")
 CLAIMED["C09"] = dict(
@@ -189,7 +192,7 @@ def main():
             "guard": "raptorq_verif",
             "enable": "none needed: the rustc_private driver reads private items, cfg'd code and constants directly; no hook code exists in /repo",
             "baseline_off_cmd": "cd /repo && cargo test --workspace --no-fail-fast --offline",
-            "source_commits": ["414d620 fix: Rand must not overflow when adding the stream index to y"],
+            "source_commits": [],   # no hook commits exist; the five "fix:" commits of /repo are listed in known_findings.json
             "add_only": True,
         },
         "engines": [
